@@ -510,10 +510,15 @@ func choose(fs []finding) finding {
 
 func libWrite(c *mc.Ctx, m *afm.Metrics) (string, error) {
 	var buf bytes.Buffer
-	before := observe.Dump(m)
+	// (deep comparison for one value in eight, chosen by a pure function of the value)
+	deep := (len(m.Glyphs)+len(m.Kern)+len(m.Notice)+len(m.FullName)+len(m.Version)+int(m.CapHeight)+int(m.XHeight)+int(m.ItalicAngle))%8 == 0
+	before := ""
+	if deep {
+		before = observe.Dump(m)
+	}
 	err := m.Write(&buf)
 	c.Step()
-	if err == nil && observe.Dump(m) != before {
+	if err == nil && deep && observe.Dump(m) != before {
 		// writing is an observation: the value handed to Write is what it was before
 		return buf.String(), fmt.Errorf("C15 harness observation: Metrics.Write changed the metrics value it was given (before %s, after %s)", before, observe.Dump(m))
 	}
